@@ -248,3 +248,27 @@ def namedtuple_types(trees) -> dict:
             elif isinstance(node, ast.ClassDef) and any((isinstance(b, ast.Name) and b.id == 'NamedTuple') or (isinstance(b, ast.Attribute) and b.attr == 'NamedTuple') for b in node.bases):
                 out[node.name] = [st.target.id for st in node.body if isinstance(st, ast.AnnAssign) and isinstance(st.target, ast.Name)]
     return out
+
+
+def call_arg(call, pos, name):
+    """the argument bound to the parameter at position `pos` (0-based, not counting self) named `name`: positional or keyword"""
+    if len(call.args) > pos and not any(isinstance(a, ast.Starred) for a in call.args[:pos + 1]):
+        return call.args[pos]
+    for k in call.keywords:
+        if k.arg == name:
+            return k.value
+    return None
+
+
+def assign_pairs(stmt):
+    """(target, value) pairs of an assignment; a parallel assignment `a, b = x, y` gives (a, x), (b, y)"""
+    if not isinstance(stmt, ast.Assign):
+        return []
+    out = []
+    for t in stmt.targets:
+        if isinstance(t, (ast.Tuple, ast.List)) and isinstance(stmt.value, (ast.Tuple, ast.List)) and len(t.elts) == len(stmt.value.elts) \
+                and not any(isinstance(e, ast.Starred) for e in list(t.elts) + list(stmt.value.elts)):
+            out += list(zip(t.elts, stmt.value.elts))
+        else:
+            out.append((t, stmt.value))
+    return out
